@@ -15,6 +15,11 @@ CONSTANTS N,         \* number of pointer variables
 VARIABLES live,      \* live[i]: pointer i is non-nil
           obj,       \* obj[i]: the set pointer i refers to ({} while nil)
           steps
+(* Faults of the environment: a Range call-back that panics (the caller       *)
+(* recovers) is a STUTTERING step of this specification: the set is left as   *)
+(* it was and every later operation behaves as specified.  The harness takes  *)
+(* such a step at the end of every replayed path and then an Add / Delete     *)
+(* round trip with a fresh value.                                             *)
 vars == <<live, obj, steps>>
 
 Ids == 1..N
